@@ -106,6 +106,10 @@ func (r *docRun) projection(history []ops.Op) []ops.Op {
 				o = asOwnEngine(o) // engine.go
 				changed = true
 			}
+			if isPooledFail(o) {
+				o = asOwnFail(o) // a failed call on the pooled engine made no document of the lineage (ondemand.go)
+				changed = true
+			}
 			out = append(out, o)
 		}
 	}
